@@ -748,5 +748,52 @@ impl<'a> VariantAccess<'a> {
 //@@ end
 }
 
+// ================================================================ the two public entry points (de.rs): from_slice and from_reader
+/// `#[default]` of util::EnumType (stated here; the enum itself is extracted)
+pub fn enum_type_default() -> (r: EnumType) ensures r is None { EnumType::None }
+/// the input, as a slice or as a stream
+pub struct InputS { pub bytes: Ghost<Seq<u8>> }
+pub struct SliceReader {}
+pub struct IoReader {}
+impl SliceReader { #[verifier::external_body] pub fn new(i: InputS) -> (r: ReaderS) ensures r.rest@ == i.bytes@, r.reliable@ { unimplemented!() } }
+impl IoReader { #[verifier::external_body] pub fn new(i: InputS) -> (r: ReaderS) ensures r.rest@ == i.bytes@, r.reliable@ { unimplemented!() } }
+/// the type being decoded (`T::deserialize(&mut de)`): a seed
+pub struct T {}
+impl T {
+    #[verifier::external_body]
+    pub fn deserialize(de: &mut Deserializer) -> (r: Result<ValueS, Error>)
+        ensures final(de).called@ == old(de).called@.push(Call::Handed(Hand::Seed, snap(*old(de)))), r == decoded_from(snap(*old(de))),
+    { unimplemented!() }
+}
+/// what the type's Deserialize impl makes of a deserializer in state `s` (it reaches the input only through the entry points above, whose behaviour over either reader is ONE contract: unit READERS)
+pub uninterp spec fn decoded_from(s: Snap) -> Result<ValueS, Error>;
+/// the state a decoding starts in: nothing pending, outside any array, at the first octet of the input
+pub open spec fn start_snap(input: Seq<u8>) -> Snap { Snap { enc: StructEncoding::None, et: EnumType::None, st: None, marker: None, elem: None, rest: input } }
+impl Deserializer {
+//@@ fn file=serde_amqp/src/de.rs impl=`impl<'de, R: Read<'de>> Deserializer<R>` name=new id=Deserializer::new
+//@@ param reader : ReaderS
+//@@ subst `Default::default()` => `enum_type_default()` rule=R16
+//@@ subst `elem_format_code: None,` => `elem_format_code: None, called: Ghost(Seq::empty()),` rule=R11
+//@@ spec
+    ensures snap(r) == start_snap(reader.rest@), r.reader == reader, r.called@.len() == 0,       // [C03.de.fresh-deserializer-is-plain] [C20.de.fresh-deserializer-is-plain] a new deserializer has no marker pending, no struct encoding, is not inside an array and has consumed nothing
+//@@ end
+}
+//@@ fn file=serde_amqp/src/de.rs name=from_slice id=from_slice
+//@@ generics
+//@@ nowhere
+//@@ param slice : InputS
+//@@ ret Result<ValueS, Error>
+//@@ spec
+    ensures r == decoded_from(start_snap(slice.bytes@)),       // [C20.de.slice-and-stream-start-alike] [C03.de.entry-starts-unmarked] from_slice hands the type a deserializer with nothing pending, outside any array, at the first octet of the input, and returns what the type makes of it
+//@@ end
+//@@ fn file=serde_amqp/src/de.rs name=from_reader id=from_reader
+//@@ generics
+//@@ nowhere
+//@@ param reader : InputS
+//@@ ret Result<ValueS, Error>
+//@@ spec
+    ensures r == decoded_from(start_snap(reader.bytes@)),       // [C20.de.slice-and-stream-start-alike] from_reader: the SAME initial state over the same octets -- with the readers' one contract (unit READERS) decoding from a stream gives what decoding from a slice gives
+//@@ end
+
 } // verus!
 fn main() {}
